@@ -515,9 +515,12 @@ func c04CheckSqrt(c c04SqrtCase) h.Result {
 		r.Eval(1)
 		w := ref.FMod(c04Shape.Value(all[i]))
 		if w.Sign() == 0 {
-			zeros++
-			if !c04SameLimbs(&els[i], all[i]) {
+			zeros++ // documented: "When an input Element is zero, its value is unchanged"
+			if ref.FMod(c04Val(&els[i])).Sign() != 0 {
 				r.Fail("field.BatchInvert:zero-changed", "[%s] element %d of %v became %v", c04Backend, i, all, c04Limbs(&els[i]))
+			}
+			if j := c04Exceeds(&els[i], c04MaxB(all[i], mpost)); j >= 0 {
+				r.Fail("field.BatchInvert:output-bound", "[%s] element %d of %v: limb %d of %v", c04Backend, i, all, j, c04Limbs(&els[i]))
 			}
 			continue
 		}
@@ -786,10 +789,7 @@ func c04CheckProg(c c04ProgCase) h.Result {
 				BatchInvert(ptrs)
 				for _, i := range idx {
 					if exp[i].Sign() == 0 {
-						nt = true
-						if !c04SameLimbs(&regs[i], before[i]) {
-							fail("zero-changed", "register %d", i)
-						}
+						nt = true // the value check below covers "zero stays zero"
 					}
 					exp[i], bnd[i] = ref.FInv(exp[i]), c04MaxB(bnd[i], mpost)
 				}
